@@ -20,7 +20,7 @@ from statistics import NormalDist
 
 from hypothesis import strategies as st
 
-from vlib.runner import Outcome
+from vlib.runner import Outcome, digest
 
 ID = "C09"
 RULE = ("Hypothesis op lists register/initialize/rejected-input/confidence_interval over labelled data classes "
@@ -669,6 +669,13 @@ def run_case(case):
     elif variant == "eb_sub1":
         rec = Rec()
         stat.add_listener(StatEvents.N_EVENT, rec)
+    elif variant in ("eb_sim", "eb_counter_sim") and digest(case)[0] % 2 == 0:
+        # the simulation statistics publish (timed) events of the same types with the same contents
+        rec = Rec()
+        for tname in list(PUBLISHED) + ["OBSERVATION_ADDED_EVENT", "COUNT_EVENT", "INITIALIZED_EVENT"]:
+            stat.add_listener(getattr(StatEvents, tname), rec)
+        out.label("sim-statistic-with-subscriber")
+    full_sub = rec is not None and variant != "eb_sub1"
 
     prod = None
     if event_based and via == "producer":
@@ -696,7 +703,7 @@ def run_case(case):
             stat.register(x)
 
     if counter:
-        return _run_counter(out, case, stat, rec, feed)
+        return _run_counter(out, case, stat, rec, feed, full_sub)
 
     orc = _Exact(_common_scale(_all_values(case)))
     failed = set()
@@ -727,7 +734,7 @@ def run_case(case):
             init_between = True
             pending_init = False
         got = _call_all(out, stat, orc, ALPHAS_SWEEP if compare else ALPHAS_SWEEP[:1], failed)
-        if rec is not None and variant == "eb_sub":
+        if rec is not None and full_sub:
             _check_published(out, rec.events, got, x, via)
         _check_structure(out, got, orc)
         if compare:
@@ -893,7 +900,7 @@ def _check_published(out, events, got, x, via):
             out.fail("publish:differs:" + tname, {"published": _enc(seen[tname]), "getter": _enc(g)})
 
 
-def _run_counter(out, case, stat, rec, feed):
+def _run_counter(out, case, stat, rec, feed, full_sub=False):
     n = 0
     count = 0
     since = 0
@@ -925,7 +932,7 @@ def _run_counter(out, case, stat, rec, feed):
         since += 1
         if marker and n >= 1:
             nontrivial = True
-        if rec is not None and case["variant"] == "eb_counter_sub":
+        if rec is not None and full_sub:
             seen = dict(rec.events)
             want = {"OBSERVATION_ADDED_EVENT": x, "N_EVENT": n, "COUNT_EVENT": count}
             for k, v in want.items():
